@@ -23,6 +23,38 @@ impl AbstractInstructionSet {
         data_section: &DataSection,
         level: OptLevel,
     ) -> AbstractInstructionSet {
+        #[cfg(fuellabs_sway_verif)]
+        {
+            let mask = crate::verif_hooks::asm_opt_skip_mask();
+            if mask & 1 != 0 {
+                return self;
+            }
+            if mask != 0 && matches!(level, OptLevel::Opt0) {
+                let on = |bit: u32| mask & (1 << bit) == 0;
+                if on(1) {
+                    self = self.const_indexing_aggregates_function(data_section);
+                }
+                if on(2) {
+                    self = self.constant_propagate(log_nothing);
+                }
+                if on(3) {
+                    self = self.dce();
+                }
+                if on(4) {
+                    self = self.simplify_cfg();
+                }
+                if on(5) {
+                    self = self.remove_sequential_jumps();
+                }
+                if on(6) {
+                    self = self.remove_redundant_moves();
+                }
+                if on(7) {
+                    self = self.remove_redundant_ops(log_nothing);
+                }
+                return self;
+            }
+        }
         match level {
             // On debug builds do a single pass through the simple optimizations
             OptLevel::Opt0 => self
